@@ -118,7 +118,7 @@ def _case(draw, near=False):
         case["perm"] = rng.permutation(n).tolist()
     elif relation == "zerocol":
         # 1-3 columns, or MANY (parameters that influence nothing are the common case in large models)
-        k = draw(st.sampled_from([1, 2, 3, 100, 1000, 5000, 5000, 20000]))
+        k = draw(st.sampled_from([1, 2, 3, 100, 1000, 5000, 5000, 20000, 100_000, 300_000]))
         case["positions"] = sorted(rng.integers(0, n + 1, size=k).tolist()) if k <= 3 else {"count": k, "where": int(rng.integers(0, n + 1))}
     if name == "PCGrad":
         case["schedule"] = [rng.permutation(m).tolist() for _ in range(m)]
